@@ -273,3 +273,23 @@ def merge_file_patterns(same_path: bool, n2: int, sp1: int, sp2: int, between: b
     if same_path:
         return list(got) == ["a.txt"] and [p.raw_pattern for p in got["a.txt"]] == ["MAJOR.MINOR.PATCH", "vMAJOR.MINOR.PATCH", "MAJOR.MINOR.PATCH[PYTAGNUM]"][:1 + n2]
     return sorted(got) == ["a.txt", "b.txt"] and len(got["b.txt"]) == n2 and len(got["a.txt"]) == 1
+
+
+def real_anchored_first_line(has_bom: bool, tail: str, sep_i: int) -> bool:
+    """with the real compiled regex of an anchored pattern ('^{version}') on the first line of a file that may start with a BOM:
+    either the pattern does not match (reported as an error) or exactly the matched span is replaced - the BOM and every other
+    character stay
+    pre: len(tail) <= 2 and 0 <= sep_i <= 2 and "\r" not in tail and "\n" not in tail and in_alphabet(tail)
+    post: _
+    (the tail is drawn from the digit-free alphabet: a digit would extend the version; the legacy renderer writes the '^' of the
+    raw pattern as a literal into the span - span-local, not C04's subject)
+    """
+    sep = ["\n", "\r\n", "\r"][sep_i]
+    content = ("\ufeff" if has_bom else "") + "1.2.3" + tail + sep + "x"
+    pat = _compile(VP, "^{version}")
+    try:
+        rfd = _mod.rfd_from_content([pat], NEW, content)
+    except rewrite.NoPatternMatch:
+        return True
+    written = rfd.line_sep.join(rfd.new_lines)
+    return written == ("\ufeff" if has_bom else "") + ("^" if LEGACY else "") + "1.2.4" + tail + sep + "x"
